@@ -122,9 +122,9 @@ func routingScenario(s *Sim, params map[string]string) {
 	}
 	client := &kafka.Client{Addr: kafka.TCP(boot...), Transport: tr, Timeout: 5 * time.Second}
 
-	restarts := false  // some broker has been restarted in this run
+	restarts := false          // some broker has been restarted in this run
 	var downAt []time.Duration // for each broker outage: the instant it began and the instant it ended (pairs)
-	elections := false // some partition has been without a leader in this run
+	elections := false         // some partition has been without a leader in this run
 	// metadata snapshots delivered to the client (from the journal, at the end)
 	var moves []time.Duration
 	var lastEvent time.Duration // last instant the cluster changed
